@@ -112,6 +112,7 @@ NEWFILE = "n-é x"
 NEWDIR = "d́ir"
 
 _state = {}
+_PRE = {}      # initial directories of upgrade cases as observed by impl (model_term runs after teardown)
 
 
 # =====================================================================================
@@ -137,7 +138,7 @@ def _ensure():
         lockdir._DEFAULT_TIMEOUT_SECONDS = 0
     except Exception:
         pass
-    _state.update(ready=True, n=0, src={}, pre={})
+    _state.update(ready=True, n=0, src={})
     _check_format_classes()
 
 
@@ -1053,7 +1054,8 @@ def impl(inp):
         out = impl_reconf(inp)
     else:
         out = impl_upgrade(inp)
-    _state["pre"][json.dumps(inp, sort_keys=True)] = out.get("before_m")
+    if inp["kind"] == "upgrade":
+        _PRE[json.dumps(inp, sort_keys=True)] = out.get("before_m")
     return out
 
 
@@ -1134,7 +1136,7 @@ def model_term(inp):
         return "(run_reconf %s %s %s %s)" % (COQ_TARGET[inp["target"]], coq_bool(inp["force"]),
                                            _c_opt_nat(inp["nb"]), coq_world(inp["world"]))
     # upgrade: the initial directories are described by what the implementation observed BEFORE the call
-    pre = _state["pre"].get(json.dumps(inp, sort_keys=True))
+    pre = _PRE.get(json.dumps(inp, sort_keys=True))
     if pre is None:
         return None
     s, d = FORMATS[inp["src"]], FORMATS[inp["dst"]]
